@@ -5,11 +5,11 @@ CONSTANTS
   Chunk = 31457280
   ChunkOverhead = 16
   OpSize = 8
-  WrapOverhead = 0
+  WrapOverhead = 32
   UseSize = 32
   RawSizes = {}
   FileSizes = {}
   MaxOps = 100000
-INVARIANTS MonExactlyOnceInOrder MonNoJobOnlyIfEmpty MonBounded MonNonEmpty MonObserved
+INVARIANTS ExactlyOnceInOrder NoJobOnlyIfEmpty Bounded NonEmptyBatch Maximal MonObserved
 POSTCONDITION TraceAccepted
 CHECK_DEADLOCK FALSE
